@@ -359,6 +359,7 @@ func runC17(r *core.Run) {
 		s.Done()
 	}
 	runC17ZeroWidth(r)
+	runC17DelimCandidates(r)
 	docsSub(r, "count-families/gfm+align=style", "the indexed families of CountDocs (tables of n columns and of n rows for EVERY n up to the bound, and the other n-item families) under gfm: generic clauses (rectangular, one header row, alignment consistent, AST row widths)",
 		core.MustCfg("gfm+align=style"), CountDocs(core.Pick(r, 150, 400)), func(s *core.Sub, cv *core.Conv, w []byte) { c17Generic(s, cv, w) })
 	soup := []string{"|", "-", ":", "a", " ", "\n", "\\|", "`", "> ", "- "}
@@ -422,6 +423,79 @@ func c17Predict(s *core.Sub, cv *core.Conv, doc []byte, h, d int, al []int, ws [
 				}
 			}
 		}
+	}
+}
+
+// runC17DelimCandidates: delimiter-row candidates that are not delimiter rows. Header of h plain cells (every cell "a",
+// with a leading and a trailing pipe) × second line = every vector of 1..4 cells over {"-", ":-", "-:", ":-:", "--", "a",
+// " ", zero-width} with a leading and a trailing pipe × one body row. The second line is a delimiter row iff every cell
+// is one; the document renders a table iff it is one and has exactly h cells (the statement: a candidate header whose
+// cell count differs from the delimiter row does not become a table at all). The family is run twice in the same
+// process, so that anything remembered about one row meets every other row.
+func runC17DelimCandidates(r *core.Run) {
+	cellsA := []string{"-", ":-", "-:", ":-:", "--", "a", " ", ""}
+	isDelim := func(c string) bool {
+		c = strings.TrimSpace(c)
+		c = strings.TrimPrefix(c, ":")
+		c = strings.TrimSuffix(c, ":")
+		return c != "" && strings.Trim(c, "-") == ""
+	}
+	type cand struct {
+		line  string
+		n     int
+		valid bool
+	}
+	var cands []cand
+	for d := 1; d <= 4; d++ {
+		total := 1
+		for i := 0; i < d; i++ {
+			total *= len(cellsA)
+		}
+		for x := 0; x < total; x++ {
+			y := x
+			cells := make([]string, d)
+			valid := true
+			for i := range cells {
+				cells[i] = cellsA[y%len(cellsA)]
+				y /= len(cellsA)
+				valid = valid && isDelim(cells[i])
+			}
+			cands = append(cands, cand{"|" + strings.Join(cells, "|") + "|", d, valid})
+		}
+	}
+	for _, cn := range []string{"table+align=attr", "gfm+align=style"} {
+		cfg := core.MustCfg(cn)
+		s := r.Sub("delimiter-candidates/"+cn, fmt.Sprintf("header of h = 1..4 cells × second line = each of %d pipe-delimited cell vectors (1..4 cells over %q) × one body row, at top level and in a block quote, the whole family twice in one process, under %s: a table is rendered iff every cell of the second line is a delimiter cell and there are exactly h of them", len(cands), cellsA, cn))
+		s.Planned = int64(2 * 4 * 2 * len(cands))
+		s.Bound = fmt.Sprintf("%d candidates × h≤4 × 2 placements × 2 passes", len(cands))
+		for pass := 0; pass < 2; pass++ {
+			core.ForEachIndex(len(cands), core.Workers(), func(w int) func(int) {
+				cv := core.NewConv(cfg)
+				return func(ci int) {
+					c := cands[ci]
+					for h := 1; h <= 4; h++ {
+						for _, placement := range []int{0, 2} {
+							doc := []byte(place([]string{"|" + strings.Repeat("a|", h), c.line, "|" + strings.Repeat("b|", h)}, placement))
+							hsh, shapes := c17Generic(s, cv, doc)
+							want := c.valid && c.n == h
+							if want != (len(shapes) == 1) || len(shapes) > 1 {
+								s.Violate(fmt.Sprintf("table-presence-differs-from-model:want=%v", want), cfg.String(), doc, nil,
+									fmt.Sprintf("second line %q: %d cells, all delimiter cells=%v, header has %d cells: a table is expected=%v, tables rendered=%d (pass %d)", c.line, c.n, c.valid, h, want, len(shapes), pass+1), "", "")
+							}
+							if hsh != 0 {
+								s.Distinct(hsh)
+							}
+						}
+					}
+					if pass == 0 && ci%(len(cands)/5+1) == 0 {
+						s.AddSample(core.Q([]byte("|a|a|\n" + c.line + "\n|b|b|")))
+					}
+				}
+			}, r.Expired)
+		}
+		s.States.Store(s.Evals.Load())
+		s.Transitions.Store(s.Evals.Load())
+		s.Done()
 	}
 }
 
